@@ -8,9 +8,12 @@ import (
 	"fmt"
 	"os"
 	"strings"
+	"time"
 
 	"verifharness/hx"
 )
+
+var tOracle, tRPC time.Duration
 
 type outcome struct {
 	Backend  string            `json:"backend"`
@@ -33,7 +36,9 @@ func (o *outcome) expected(v string) string {
 
 // evalReq runs one request on one backend through the three servers and asks the oracle.
 func (e *env) evalReq(be string, r Req) *outcome {
+	t0 := time.Now()
 	rep := e.or.Ask("q "+be+" "+r.line(), 6)
+	tOracle += time.Since(t0)
 	cut := func(s, p string) string { return strings.TrimPrefix(s, p+" ") }
 	o := &outcome{Backend: be, Spec: cut(rep[0], "spec"), Exp8: cut(rep[1], "exp8"),
 		Model: map[string]string{"v8": cut(rep[2], "m8"), "v9": cut(rep[3], "m9"), "v10": cut(rep[4], "m10")},
@@ -43,21 +48,25 @@ func (e *env) evalReq(be string, r Req) *outcome {
 		idk = r.ID.K
 	}
 	for _, v := range versions {
+		t1 := time.Now()
 		got, _ := e.srv[be].call(v, r)
+		tRPC += time.Since(t1)
 		o.Impl[v] = got
 		exp := o.expected(v)
 		if got != exp {
 			// the property predicate fails on this input
 			cl := fmt.Sprintf("unexpected:%s:%s", r.M, idk)
-			switch o.Dev {
-			case "txidx-absent-block-number":
+			switch {
+			case o.Dev == "txidx-absent-block-number":
 				cl = o.Dev
-			case "state-by-zero-block-hash":
-				cl = o.Dev + ":" + be
+			case o.Dev == "state-by-zero-block-hash":
+				cl = zeroHashClass(be, got)
+			case staleHeadSlot(be, r, exp, got):
+				cl = "new-backend-head-storage:zeroed-slot-reads-stale-value"
 			}
 			o.add(cl, fmt.Sprintf("%s %s on %s backend answers %s, the chain demands %s", v, r.line(), be, got, exp), false)
 		}
-		if got != o.Model[v] {
+		if got != o.Model[v] && !staleHeadSlot(be, r, o.Model[v], got) {
 			o.add(fmt.Sprintf("model-mismatch:%s:%s", r.M, idk),
 				fmt.Sprintf("%s %s on %s backend answers %s, the handler model (C08.Model.handle) %s", v, r.line(), be, got, o.Model[v]), got == exp)
 		}
@@ -66,11 +75,32 @@ func (e *env) evalReq(be string, r Req) *outcome {
 	if o.Impl["v9"] != o.Impl["v10"] || (idk != "l1" && o.Impl["v8"] != o.Impl["v9"]) {
 		cl := "versions-disagree:" + r.M + ":" + idk
 		if o.Dev == "state-by-zero-block-hash" {
-			cl = o.Dev + ":" + be
+			cl = "state-by-zero-block-hash:versions-disagree:" + be
 		}
 		o.add(cl, fmt.Sprintf("%s on %s backend: v0.8 %s / v0.9 %s / v0.10 %s", r.line(), be, o.Impl["v8"], o.Impl["v9"], o.Impl["v10"]), false)
 	}
 	return o
+}
+
+// staleHeadSlot recognises the C03 finding (core/trie2 leaves the flat leaf of a deleted slot on disk when its
+// sibling leaf exists; the new backend's head reader reads leaves by path): a head read on the new backend
+// that should be zero and is not. The handler model takes the state reader's answers from the abstract
+// state (C03's truth), so this is not a model mismatch of C08.
+func staleHeadSlot(be string, r Req, want, got string) bool {
+	head := r.ID != nil && (r.ID.K == "latest" || (r.ID.K == "h" && r.ID.H == "0"))
+	return be == "new" && r.M == "storageAt" && head && want == "felt:0" && strings.HasPrefix(got, "felt:") && got != want
+}
+
+// block_hash 0x0 names no block; the state methods answer from an empty state (legacy) or from the head
+// state (new backend) instead of BLOCK_NOT_FOUND.
+func zeroHashClass(be, got string) string {
+	if strings.HasPrefix(got, "err:") {
+		return "state-by-zero-block-hash:wrong-error:" + be
+	}
+	if got == "felt:0" {
+		return "state-by-zero-block-hash:answers-default-value:" + be
+	}
+	return "state-by-zero-block-hash:answers-head-data:" + be
 }
 
 func (o *outcome) add(class, what string, noInput bool) {
@@ -136,6 +166,7 @@ func main() {
 	or := hx.StartOracle(c.OraclePath)
 	defer or.Close()
 
+	reported := map[string]bool{}
 	var live *env // the environment of the running scenario: the oracle is re-synchronised to it after shrinking
 	report := func(ops []Op, be string, r Req, o *outcome) {
 		defer func() {
@@ -147,6 +178,10 @@ func main() {
 			}
 		}()
 		for _, cl := range o.Classes {
+			if reported[cl] {
+				continue // one (shrunk) replay per class per run
+			}
+			reported[cl] = true
 			sops, sr := shrink(or, ops, be, r, cl)
 			e, _ := runOps(or, sops)
 			so := e.evalReq(be, sr)
@@ -253,6 +288,8 @@ func main() {
 		}
 	}
 	c.Extra["scenarios"] = nscen
+	c.Extra["oracle_s"] = tOracle.Seconds()
+	c.Extra["rpc_s"] = tRPC.Seconds()
 	c.Extra["api_versions"] = versions
 	c.Extra["state_backends"] = backends
 	c.Finish("requests of every modelled read method through Server.HandleReader (named and positional params) over store/revert/set-L1 histories; " +
